@@ -50,12 +50,15 @@ pub enum OpK {
     Random,
     /// RandomUniformLike: one input (only its shape matters), non-deterministic output (only used by C04)
     RandomLike,
+    /// Cast(to int32) followed by Cast(to float): the identity on the small-integer values used
+    /// here; same-size casts run in place when the executor owns the input
+    CastRT,
 }
 
 impl OpK {
     pub fn arity(self) -> usize {
         match self {
-            OpK::Relu | OpK::Identity | OpK::Transpose | OpK::Split | OpK::IfMMThen | OpK::IfMMElse | OpK::RandomLike => 1,
+            OpK::Relu | OpK::Identity | OpK::Transpose | OpK::Split | OpK::IfMMThen | OpK::IfMMElse | OpK::RandomLike | OpK::CastRT => 1,
             OpK::Random => 0,
             _ => 2,
         }
@@ -80,12 +83,13 @@ impl OpK {
             OpK::IfMMElse => "IfMMElse",
             OpK::Random => "RandomUniform",
             OpK::RandomLike => "RandomUniformLike",
+            OpK::CastRT => "CastRT",
         }
     }
     pub fn from_name(s: &str) -> OpK {
         for k in [
             OpK::Relu, OpK::Identity, OpK::Transpose, OpK::Add, OpK::Sub, OpK::Mul, OpK::MatMul, OpK::Concat,
-            OpK::Split, OpK::IfAdd, OpK::IfSub, OpK::IfMMThen, OpK::IfMMElse, OpK::Random, OpK::RandomLike,
+            OpK::Split, OpK::IfAdd, OpK::IfSub, OpK::IfMMThen, OpK::IfMMElse, OpK::Random, OpK::RandomLike, OpK::CastRT,
         ] {
             if k.name() == s {
                 return k;
@@ -264,6 +268,7 @@ pub fn eval_op(kind: OpK, ins: &[NArr]) -> Result<Vec<NArr>, String> {
     match kind {
         OpK::Relu => Ok(vec![NArr { shape: ins[0].shape.clone(), data: ins[0].data.iter().map(|x| if *x > 0.0 { *x } else { 0.0 }).collect() }]),
         OpK::Identity => Ok(vec![ins[0].clone()]),
+        OpK::CastRT => Ok(vec![NArr { shape: ins[0].shape.clone(), data: ins[0].data.iter().map(|x| (*x as i32) as f32).collect() }]),
         OpK::Transpose => {
             let a = &ins[0];
             if a.shape.len() != 2 {
@@ -443,6 +448,11 @@ pub fn to_onnx(p: &Prog, fixed_shapes: bool) -> Vec<u8> {
                 .attr("shape", onnx::Attr::Ints(vec![2, 2]))
                 .attr("low", onnx::Attr::Float(1.0))
                 .attr("high", onnx::Attr::Float(2.0)),
+            OpK::CastRT => {
+                let mid = format!("{}_i32", outs[0]);
+                g.nodes.push(onnx::Node::new("Cast", &ins_ref, &[&mid]).attr("to", onnx::Attr::Int(onnx::dtype::INT32 as i64)).named(&format!("op{i}_a")));
+                onnx::Node::new("Cast", &[&mid], &outs_ref).attr("to", onnx::Attr::Int(onnx::dtype::FLOAT as i64))
+            }
             OpK::RandomLike => onnx::Node::new("RandomUniformLike", &ins_ref, &outs_ref).attr("low", onnx::Attr::Float(1.0)).attr("high", onnx::Attr::Float(2.0)),
             k => onnx::Node::new(k.name(), &ins_ref, &outs_ref),
         };
